@@ -22,10 +22,10 @@ P = {'id': 'C15',
              'decode_matches), src/string/hex.rs (hex_decode_bytes, hex_decode_to_slice), src/io/data_input.rs (SliceDataInput read_var_int / read_length_prefixed_bytes incl. the chunked read_vec / skip / read_u8), src/io/smart_ptr.rs (Vec<u32>::deserialize)',
              'oracle only (S-only, no mechanism model): HuffmanTree/HuffmanDecoder, ContextualHuffman (deserialize, decode order 0/1/2, decode_x1/2/4/8), FSE '
              '(fse_decompress, remove_fse_compression), Rans64Decoder x1/x2/x4/x8, Dictionary::deserialize, the eight Compressor::decompress framings (none, lz4, '
-             'zstd, huffman, rans, dictionary, simd_lz77, hybrid), SimdLz77Compressor, PaZipCompressor::decompress, ZipOffsetBlobStore::load_from_reader, '
+             'zstd, huffman, rans, dictionary, simd_lz77, hybrid), SimdLz77Compressor, PaZipCompressor::decompress, ZipOffsetBlobStore::load_from_reader (+get), SortedUintVec::from_bytes (+get/get2/get_block), '
              'ZReorderMap::open, MmapVec::open, MmapDataInput, SliceDataInput, ComplexTypeSerializer (tuple, HashMap, HashSet, BTreeMap, BTreeSet, array, Option, '
              'batch), SmartPtrSerializer (Box, Rc, Arc, Option<Box>), Vec<T> decoders, Base64 (4 configurations + base64_decode_simd), hex_decode(str)',
-             'not covered: src/ffi/c_api.rs (exports no byte parser at the pinned commit; the `ffi` feature is not built), SortedUintVec (has no loader), '
+             'not covered: src/ffi/c_api.rs (exports no byte parser at the pinned commit; the `ffi` feature is not built), '
              'zstd / lz4_flex / base64 crate internals (exercised through the wrappers only)',
              'a panic is modelled where the checked (dev) profile panics: arithmetic overflow, out-of-range slice/index, capacity overflow; counters bounded by '
              'the slice length are plain additions; memory safety of unsafe code is not modelled (observed by the oracle as SIGSEGV/SIGBUS only)'],
@@ -38,7 +38,7 @@ P = {'id': 'C15',
                'for every byte string (< 2^60 bytes) and every argument the run is not a panic and reserves at most 8 bytes per input byte plus one 64 KiB chunk (parser_total), with '
                'per-parser output bounds; refutation theorems with concrete witnesses for the three code shapes that were repaired (sequence decoder without the '
                'count check, LZ without the size limit, Far2Long `as u16 + 34`). The model is tied to the compiled code on every run by evaluating ~1500 generated '
-               'cases in Coq against what the implementation returned. All 121 parser cells - including those without a model - are decided by a direct oracle: '
+               'cases in Coq against what the implementation returned. All 122 parser cells - including those without a model - are decided by a direct oracle: '
                'every short byte string and every valid encoding mutated at every position, in child processes under an address-space and time limit, must yield '
                'Ok or Err.',
  'level_note': 'Trusted: Coq kernel + vm_compute; the hand-written model (agreement with the code is checked on generated cases only); harness generators, the '
@@ -46,4 +46,4 @@ P = {'id': 'C15',
  'technique': 'Coq proof (outcome monad with a compositional `good` rule, induction over fuelled parser loops, lia) + model/implementation differential check '
               'evaluated by vm_compute + crash oracle in resource-limited child processes',
  'explanation': 'Unbounded Coq theorems about a Gallina restatement of 39 parser entry points + differential check of that model against the compiled code + a '
-                'crash/abort/timeout oracle over 121 parser cells in resource-limited child processes.'}
+                'crash/abort/timeout oracle over 122 parser cells in resource-limited child processes.'}
